@@ -119,7 +119,7 @@ mod verif_kani_presolver {
     #[kani::proof]
     #[kani::unwind(4)]
     fn reduce_cones_matches_spec_len3_zero_exp_any() { covers_all(check_on([cone_of(1), cone_of(3), any_cone()])); }
-    // thorough tier (~7 min): three nonnegative cones, i.e. three conditional pushes
+    // NOT within the 8 GB cap (measured: 7 min 15 s and 22 GB each, both pass): a nonnegative cone among the first two of three
     #[kani::proof]
     #[kani::unwind(4)]
     fn reduce_cones_matches_spec_len3_nn_nn_nn() {
@@ -128,7 +128,7 @@ mod verif_kani_presolver {
     }
     #[kani::proof]
     #[kani::unwind(4)]
-    fn reduce_cones_dev_nn_soc_nn() {
+    fn reduce_cones_matches_spec_len3_nn_soc_nn() {
         let seen = check_on([cone_of(0), cone_of(2), cone_of(0)]);
         kani::cover!(seen.0 && seen.1); kani::cover!(seen.3);
     }
